@@ -108,6 +108,8 @@ def check(run):
     from . import C01
     with R.as_rule('C05.exact'):
         C01.alias(R)
+    with R.as_rule('C05.strict'):
+        C01.join(R)              # the strict decode sees the whole message: the joined (or inflated) payload of every fragment
     R.rule('C05.inflated', 'a compressed text reaches the strict decode as the peer sent it: the inflater is configured from '
                            'the negotiated server window / takeover flag, fed every fragment and the trailer', 10)
     from . import C02 as _C02
